@@ -70,6 +70,7 @@ type RepSpec struct {
 type SchedDesc struct {
 	Policy    int            `json:"policy"`
 	P         float64        `json:"p,omitempty"`
+	HotP      float64        `json:"hot_p,omitempty"` // probability at "hot" sites (shared state, sync, stores)
 	OnlyIO    bool           `json:"only_io,omitempty"`
 	Seed      uint64         `json:"seed,omitempty"`
 	Prio      []int          `json:"prio,omitempty"`
@@ -209,10 +210,16 @@ func (d *RunDesc) simConfig() simrt.Config {
 		Explicit:  d.Sched.Explicit,
 		MaxYields: 50_000_000,
 	}
-	if d.Sched.P >= 1 {
-		cfg.PThresh = ^uint64(0)
-	} else if d.Sched.P > 0 {
-		cfg.PThresh = uint64(d.Sched.P * float64(1<<63) * 2)
+	thresh := func(p float64) uint64 {
+		if p >= 1 {
+			return ^uint64(0)
+		}
+		if p <= 0 {
+			return 0
+		}
+		return uint64(p * float64(1<<63) * 2)
 	}
+	cfg.PThresh = thresh(d.Sched.P)
+	cfg.HotThresh = thresh(d.Sched.HotP)
 	return cfg
 }
